@@ -445,7 +445,7 @@ class DecodePath:
         from . import rules_reasm as RR
         return getattr(RR, 'FRAMES_REVERSED', True)
 
-    def feed(self, pgn, mid, src=7, name_int=12345, fast=False, mfr=None):
+    def feed(self, pgn, mid, src=7, name_int=12345, fast=False, mfr=None, data_items=None):
         A = self.A
         program = self.program
         dec = self.dec
@@ -482,6 +482,7 @@ class DecodePath:
                 st['entered'] = True
                 return msg
             if isinstance(f, ast.Name) and env.get(f.id) is FUNC:
+                st['decode_args'] = [it.expr(a, env) for a in call.args]
                 return msg
             if isinstance(f, ast.Attribute) and f.attr == '_isFastPGN':
                 return bool(fast)
@@ -557,6 +558,8 @@ class DecodePath:
             elif p_ in ('source_id', 'src'): args.append(A.AInt(src))
             elif p_ in ('destination_id', 'dest'): args.append(A.AInt(255))
             elif p_ == 'priority': args.append(A.AInt(3))
+            elif p_ == 'can_data' and data_items is not None:
+                args.append(A.ABytes(list(data_items)))
             elif p_ == 'can_data' and fast:
                 # a fast-packet message that is complete in its first frame: sequence 0 / frame 0, four payload bytes, padding
                 wire_ = fast if isinstance(fast, tuple) else (0x00, 0x04, 1, 2, 3, 4, 0xff, 0xff)
@@ -569,7 +572,7 @@ class DecodePath:
             raise A.Unknown('the value returned is not the decoded message')
         now = dec.attrs['source_to_iso_name'].items.get(src) if isinstance(dec.attrs.get('source_to_iso_name'), A.ADict) else None
         return {'status': 'returned' if r is msg else 'filtered', 'stage': None if r is msg else ('_call_decode_function' if st['entered'] else '_decode'),
-                'stored': now is not before, 'attached': self.back(st['attached']), 'attached_raw': st['attached'], 'map_entry': now, 'writes': st['writes'], 'msg': msg,
+                'stored': now is not before, 'attached': self.back(st['attached']), 'attached_raw': st['attached'], 'decode_args': st.get('decode_args'), 'map_entry': now, 'writes': st['writes'], 'msg': msg,
                 'add_data': st.get('add_data')}
 
 def outcome_interp(program, attrs, consts, pgn, mid, iso=None, now_after_window=False, extra_self=None):
@@ -619,6 +622,8 @@ def filter_table(chk, program, max_entries=2):
             rejects = False
         except A.RaiseSignal as r:
             rejects = A.exc_kind(r) == 'ValueError'
+        if 'exclude_pgns' not in a1 or 'exclude_pgns_ids' not in a1:
+            raise A.Unknown('the constructor leaves no exclude_pgns / exclude_pgns_ids attributes: where the lists are kept was not followed')
         okt = sorted(a1.get('exclude_pgns', [])) == [5, 5] and a1.get('exclude_pgns_ids') == ['abc'] and rejects
         chk.check(okt, 'FILTER-TYPE', 'split_pgn_list', file=DEC, line=program.fn('decoder', f"{CLS}.__init__").lineno, func='split_pgn_list',
                   expected='ints kept as given, strings lower-cased, anything else rejected with ValueError',
